@@ -125,3 +125,73 @@ Section Shapes.
     unfold row_of. cbn [map EvalPure.eval_term lookup bind]. now rewrite Nat.eqb_refl.
   Qed.
 End Shapes.
+
+(* ---------- C17, any concatenated expression: concatenate(u) for any u whose rows are known ---------- *)
+Lemma flat_map_flat_map {A B C} (f : B -> list C) (g : A -> list B) l :
+  flat_map f (flat_map g l) = flat_map (fun a => flat_map f (g a)) l.
+Proof. induction l as [|a l IH]; cbn [flat_map]; [reflexivity|]. now rewrite flat_map_app, IH. Qed.
+
+Lemma nothing_bound l : existsb (bound []) l = false.
+Proof. induction l as [|k l IH]; [reflexivity|]. exact IH. Qed.
+
+Section ConcatAny.
+  Variable h : heap.
+  Variable dom : key -> list val.
+  Variable cid : key.                    (* the concatenate node *)
+  Variable u : term.                     (* what is concatenated *)
+  Notation eval_term := (eval_term h dom).
+
+  (* the list of all elements of all rows of u, in row order and inner order *)
+  Definition concat_value : val := VTup (flat_map (fun bv => atoms_of (snd bv)) (eval_term u [])).
+
+  Lemma concat_any_unbound : eval_term (TConcat cid u) [] = [(bind [] cid concat_value, concat_value)].
+  Proof. reflexivity. Qed.
+
+  Theorem concat_any_single : run_query h dom [TConcat cid u] None = [[concat_value]].
+  Proof.
+    unfold run_query. cbn [flat_map]. rewrite app_nil_r. cbn [bind_selected]. rewrite concat_any_unbound. cbn [flat_map fst app map].
+    unfold row_of. cbn [map EvalPure.eval_term lookup bind]. now rewrite Nat.eqb_refl.
+  Qed.
+
+  Variable y : key.
+  Hypothesis y_cid : Nat.eqb y cid = false.
+
+  Theorem concat_any_membership o m :
+    run_query h dom [TVar y] (Some (CCmp o (TConcat cid u) (TMap m (TVar y))))
+    = map (fun w => [w]) (filter (fun w => apply_op o concat_value (apply_map h m w)) (dom y)).
+  Proof.
+    unfold run_query. cbn [EvalPure.eval]. unfold bound_in. cbn [tvars]. rewrite nothing_bound. cbn [orb existsb bound lookup].
+    unfold cmp_rows. rewrite concat_any_unbound.
+    cbn [flat_map fst snd]. rewrite app_nil_r.
+    assert (OU : eval_term (TMap m (TVar y)) (bind [] cid concat_value)
+                 = map (fun w => (bind (bind [] cid concat_value) y w, apply_map h m w)) (dom y)).
+    { cbn [EvalPure.eval_term lookup bind]. rewrite y_cid. cbn [lookup]. now rewrite map_map. }
+    rewrite OU, flat_map_map'. cbn [fst snd]. clear OU.
+    induction (dom y) as [|w d IH]; [reflexivity|]. cbn [map flat_map filter fst snd]. rewrite orb_false_r.
+    destruct (apply_op o concat_value (apply_map h m w)); cbn [app filter map flat_map fst snd negb]; [|exact IH].
+    rewrite IH. f_equal.
+    cbn [bind_selected EvalPure.eval_term lookup bind]. rewrite Nat.eqb_refl. cbn [flat_map fst app map].
+    unfold row_of. cbn [map EvalPure.eval_term lookup bind]. now rewrite Nat.eqb_refl.
+  Qed.
+End ConcatAny.
+
+
+(* concatenate(flatten(t)), t over the parent x: the elements of the elements, parent by parent *)
+Section ConcatFlat.
+  Variable h : heap.
+  Variable dom : key -> list val.
+  Variables x fid : key.
+  Variable t : term.
+  Hypothesis t_ok : t1 x t = true.
+  Hypothesis t_men : mentions t = true.
+
+  Definition all_flat_elems : val :=
+    VTup (flat_map (fun v => flat_map atoms_of (elements (tval h t (ev x v)))) (dom x)).
+
+  Lemma concat_value_flat : concat_value h dom (TFlat fid t) = all_flat_elems.
+  Proof.
+    unfold concat_value, all_flat_elems. rewrite (flat_unbound h dom x fid t t_ok t_men). f_equal.
+    rewrite flat_map_flat_map. apply flat_map_ext. intros v. unfold inner. rewrite flat_map_map'. reflexivity.
+  Qed.
+End ConcatFlat.
+
